@@ -4,6 +4,7 @@ package drv
 import (
 	"encoding/hex"
 	"fmt"
+	"time"
 
 	"github.com/mit-pdos/go-nfsd/nfstypes"
 )
@@ -241,7 +242,26 @@ func (c *Call) data() []byte {
 // kill the process: rfc1057 runs handlers without recover).
 var AfterExec func(c *Call)
 
+// ExecTimeout bounds every call: a call that does not return is reported as St = "TIMEOUT" (the goroutine is left behind).
+var ExecTimeout = 12 * time.Second
+
+// Exec performs the call under a watchdog.
 func (c *Call) Exec(api API) {
+	done := make(chan struct{})
+	cc := *c
+	go func() {
+		defer close(done)
+		cc.ExecRaw(api)
+	}()
+	select {
+	case <-done:
+		*c = cc
+	case <-time.After(ExecTimeout):
+		c.St = "TIMEOUT"
+	}
+}
+
+func (c *Call) ExecRaw(api API) {
 	if AfterExec != nil {
 		defer func() { AfterExec(c) }()
 	}
